@@ -1549,10 +1549,80 @@ def check_hist(case, v: Verdict):
 
 
 
+@st.composite
+def st_histx_case(draw):
+    """A user-owned Integrals() object: tables built on [0, b0], boundary-value (CONSTANT) extrapolation as the default
+    tables use, arguments beyond the table evaluated, the tables widened with extendInterpolationTable (what
+    tests/testsPotentialTools test_Jb_extend_range does), arguments inside and beyond the NEW table evaluated."""
+    b0 = float(draw(st.integers(4, 30)))
+    b1 = b0 + float(draw(st.integers(5, 60)))
+    return {"kind": "histx", "b0": b0, "b1": b1, "per_unit": draw(st.sampled_from([4, 8])),
+            "first": [draw(st.floats(0.0, 1.0)) for _ in range(2)],
+            "later": [draw(st.floats(0.0, 1.0)) for _ in range(3)],
+            "beyond": [draw(st.floats(0.01, 3.0)) for _ in range(2)],
+            "order": draw(st.sampled_from(["value-first", "derivative-first"]))}
+
+
+def check_histx(case, v: Verdict):
+    from WallGo import EExtrapolationType
+    from WallGo.PotentialTools import Integrals
+
+    ints = Integrals()
+    b0, b1, k = float(case["b0"]), float(case["b1"]), int(case["per_unit"])
+    v.label("histx", f"per_unit:{k}", case["order"])
+    v.nontrivial = True
+    for fn in ("Jb", "Jf"):
+        J = getattr(ints, fn)
+        kind = fn[1]
+        J.newInterpolationTable(0.0, b0, int(b0 * k) + 1)
+        J.setExtrapolationType(EExtrapolationType.CONSTANT, EExtrapolationType.CONSTANT)
+
+        def val(x):
+            return np.ravel(np.asarray(J(float(x)), dtype=float))
+
+        def beyond_ok(x, edge, stage):
+            """boundary-value extrapolation: J(x) beyond the table is the integral at the CURRENT table end"""
+            got, want = val(x), oracle(kind, edge)
+            v.checked("histx-constant")
+            if not abs(got[0] - want.real) <= tol_quad(edge, abs(want), 0):
+                v.fail("histx-constant", f"{fn} {stage}",
+                       f"{fn}({x!r}) with boundary-value extrapolation = {got[0]!r} {stage}; the table ends at {edge!r} where "
+                       f"the integral is {want.real!r}", x=float(x))
+                return False
+            return True
+
+        for u in case["first"]:
+            if case["order"] == "derivative-first":
+                J.derivative(b0 * (1.0 + u) + 0.5, 1, True)
+            if not beyond_ok(b0 * (1.0 + u) + 0.5, b0, "before the extension"):
+                return
+        J.extendInterpolationTable(0.0, b1, 0, int((b1 - b0) * k))
+        v.checked("histx-range")
+        if abs(J.interpolationRangeMax() - b1) > 1e-9 * b1:
+            v.fail("histx-range", fn, f"after extendInterpolationTable(0, {b1}, ...) the table ends at {J.interpolationRangeMax()!r}")
+            return
+        edge = float(J.interpolationRangeMax())
+        for u in case["beyond"]:
+            if not beyond_ok(edge + u * b1, edge, "after the extension"):
+                return
+        # inside the widened table: spacing 1/k on a smooth function; measured envelope of the spline error for
+        # Jb/Jf on x >= 4 at spacing 1/4 is 2e-6 (|J| h^4 5/384 with |J| < 0.1): bound 1e-4 (1 + |J|)
+        v.checked("histx-inside")
+        for u in case["later"]:
+            x = b0 + u * (b1 - b0)
+            got, want = val(x), oracle(kind, x)
+            err = abs(got[0] - want.real)
+            v.info["histx_inside_err"] = max(v.info.get("histx_inside_err", 0.0), float(err))
+            if not err <= 1e-4 * (1.0 + abs(want)):
+                v.fail("histx-inside", f"{fn}", f"{fn}({x!r}) = {got[0]!r} inside the widened table, integral {want.real!r}", x=float(x))
+                return
+
+
 def strategy(tier):
     # weights chosen from the measured label histogram (Hypothesis favours the structurally smaller branches)
-    return st.integers(0, 45).flatmap(
-        lambda k: st_point_case() if k < 40 else (st_pot_case() if k < 44 else (st_jcw_case() if k < 45 else st_hist_case())))
+    return st.integers(0, 46).flatmap(
+        lambda k: st_point_case() if k < 40 else (st_pot_case() if k < 44 else (
+            st_jcw_case() if k < 45 else (st_hist_case() if k < 46 else st_histx_case()))))
 
 
 def check_case(case) -> Verdict:
@@ -1571,6 +1641,8 @@ def check_case(case) -> Verdict:
         check_jcw(case, v)
     elif kind == "hist":
         check_hist(case, v)
+    elif kind == "histx":
+        check_histx(case, v)
     else:
         raise ValueError(kind)
     return v
